@@ -60,14 +60,15 @@ EXACT = {
 
 
 def start_indices(start: float, dt: float, ulps: int = 8) -> List[int]:
-    """Admissible start indices floor(start/dt): the exact floor of the ratio of the two floats and, when
-    that ratio is within ``ulps`` float64 ulps of an integer k, both k-1 and k (quantifier's rounding clause)."""
+    """Admissible start indices floor(start/dt): the exact floor of the ratio r of the two floats and, when r lies
+    within ``ulps`` float64 ulps *below* an integer k, also k (a correctly rounded float division may land on k: the
+    quantifier's rounding clause). When r >= k exactly, k-1 is never admissible."""
     r = Fr(start) / Fr(dt)
     fl = r.numerator // r.denominator
     out = {int(fl)}
     k = round(r)
-    if abs(r - k) <= ulps * Fr(2) ** -52 * max(abs(r), 1):
-        out.update({int(k) - 1, int(k)})
+    if 0 < k - r <= ulps * Fr(2) ** -52 * max(abs(r), 1):
+        out.add(int(k))
     return sorted(i for i in out if i >= 0)
 
 
